@@ -71,7 +71,14 @@ def correspond(ctx):
     # ---- 1. plant and verify the truth exactly
     for i in range(n):
         kind = rng.choice(['optimal', 'optimal', 'qp', 'pinf', 'dinf'])
-        pr = PR.planted_conelp(rng, 'optimal' if kind == 'qp' else kind, P_rank=(rng.randint(0, 2) if kind == 'qp' else None))
+        if i % 5 == 0: kind = 'optimal'
+        if kind == 'optimal' and i % 5 == 0:
+            # LPs with componentwise inequalities, free variables and equality constraints: the default KKT solver (chol2) has to handle a
+            # singular G'W^-2 G on every call
+            m_ = rng.randint(2, 5)
+            pr = PR.planted_conelp(rng, 'optimal', n=rng.randint(2, min(4, m_)), dims={'l': m_, 'q': [], 's': []}, p=rng.randint(1, 2), free=rng.randint(1, 2))
+        else:
+            pr = PR.planted_conelp(rng, 'optimal' if kind == 'qp' else kind, P_rank=(rng.randint(0, 2) if kind == 'qp' else None))
         w = pr.wit
         pl = prob_line(pr)
         if kind in ('optimal', 'qp'):
@@ -84,6 +91,7 @@ def correspond(ctx):
     out = vlib.drive('Cert', lines)
     stat = {}
     def bump(k): stat[k] = stat.get(k, 0) + 1
+    chol2_fail = []
     evals = 0
     verified = 0
     for kind, pr, li in insts:
@@ -115,13 +123,15 @@ def correspond(ctx):
         chol2_case = lonly and PR.rank_cols(PG, [[] for _ in range(pr.n)]) < pr.n
         for tag, fn in paths(cvxopt, PR, pr, kind == 'qp'):
             evals += 1
+            if chol2_case and tag.split(' ')[0] in ('conelp', 'lp', 'socp', 'sdp', 'coneqp', 'qp'):
+                bump('chol2-cases:paths:' + ('qp' if tag.split(' ')[0] in ('coneqp', 'qp') else 'lp'))
             import time as _t; t0 = _t.time()
             try: r = fn()
             except Exception as e:
                 bump('%s:%s:exception' % (kind, tag.split(' ')[0]))
                 cls = 'solvable' if kind in ('optimal', 'qp') else 'no-solution'
                 if chol2_case and isinstance(e, ValueError) and 'Rank' in str(e) and tag.split(' ')[0] in ('conelp', 'lp', 'socp', 'sdp', 'coneqp', 'qp'):
-                    ctx.violation('c05:chol2-rank-deficient-G', '%s raised %s (G alone is rank deficient, [G; A] is not)' % (tag, e), desc); continue
+                    bump('chol2-cases:failed:' + ('qp' if tag.split(' ')[0] in ('coneqp', 'qp') else 'lp')); chol2_fail.append(('%s raised %s (G alone is rank deficient, [G; A] is not)' % (tag, e), desc)); continue
                 ctx.violation('c05:exception:%s:%s:%s' % (cls, tag.split(' ')[0], type(e).__name__), '%s raised %s on a well-posed planted %s instance: %s' % (tag, type(e).__name__, kind, e), desc)
                 continue
             st = r['status']
@@ -134,7 +144,7 @@ def correspond(ctx):
                     near = all(r.get(k) is not None and abs(r[k]) <= 1e-4 for k in ('primal infeasibility', 'dual infeasibility')) and \
                         r.get('gap') is not None and (r["gap"] <= 1e-4 or (r.get("relative gap") is not None and r["relative gap"] <= 1e-4))
                     if not near and chol2_case and ent in ('conelp', 'lp', 'socp', 'sdp', 'coneqp', 'qp'):
-                        ctx.violation('c05:chol2-rank-deficient-G', "%s ended 'unknown' (G alone is rank deficient, [G; A] is not)" % tag, desc)
+                        bump('chol2-cases:failed:' + ('qp' if tag.split(' ')[0] in ('coneqp', 'qp') else 'lp')); chol2_fail.append(("%s ended 'unknown' (G alone is rank deficient, [G; A] is not)" % tag, desc))
                     elif not near:
                         ctx.violation('c05:unknown-on-solvable:%s' % ent, "%s ended 'unknown' far from convergence on a strictly feasible planted instance "
                                       '(pres %r dres %r gap %r, %r iterations)' % (tag, r.get('primal infeasibility'), r.get('dual infeasibility'), r.get('gap'), r.get('iterations')), desc)
@@ -144,14 +154,14 @@ def correspond(ctx):
                 if st == 'optimal':
                     ctx.violation('c05:optimal-on-infeasible:%s' % ent, "%s reported 'optimal' on a problem with a strict Farkas certificate" % tag, desc)
                 elif st == 'unknown' and chol2_case and ent in ('conelp', 'lp', 'socp', 'sdp'):
-                    ctx.violation('c05:chol2-rank-deficient-G', "%s ended 'unknown' on an infeasible instance (G alone is rank deficient, [G; A] is not)" % tag, desc)
+                    bump('chol2-cases:failed:' + ('qp' if tag.split(' ')[0] in ('coneqp', 'qp') else 'lp')); chol2_fail.append(("%s ended 'unknown' on an infeasible instance (G alone is rank deficient, [G; A] is not)" % tag, desc))
                 elif st != 'primal infeasible' and ent not in ('coneqp', 'qp', 'cpl'):     # coneqp / cpl have no infeasibility statuses: 'unknown' is their documented answer
                     ctx.violation('c05:not-classified:%s:%s' % (ent, st.replace(' ', '-')), "%s reported %r on a problem with a strict Farkas certificate" % (tag, st), desc)
             else:
                 if st == 'optimal':
                     ctx.violation('c05:optimal-on-unbounded:%s' % ent, "%s reported 'optimal' on a problem with a strictly improving ray" % tag, desc)
                 elif st == 'unknown' and chol2_case and ent in ('conelp', 'lp', 'socp', 'sdp'):
-                    ctx.violation('c05:chol2-rank-deficient-G', "%s ended 'unknown' on an unbounded instance (G alone is rank deficient, [G; A] is not)" % tag, desc)
+                    bump('chol2-cases:failed:' + ('qp' if tag.split(' ')[0] in ('coneqp', 'qp') else 'lp')); chol2_fail.append(("%s ended 'unknown' on an unbounded instance (G alone is rank deficient, [G; A] is not)" % tag, desc))
                 elif st != 'dual infeasible' and ent not in ('coneqp', 'qp', 'cpl'):
                     ctx.violation('c05:not-classified:%s:%s' % (ent, st.replace(' ', '-')), "%s reported %r on a problem with a strictly improving ray" % (tag, st), desc)
         # ---- 3. objectives agree and respect the planted bounds
@@ -162,6 +172,14 @@ def correspond(ctx):
         vals = [v for _, v in got if v is not None]
         if vals and max(vals) - min(vals) > 1e-5 * (1 + abs(vals[0])):
             ctx.violation('c05:paths-disagree', 'primal objectives of the solver paths differ: %r' % [(t, v) for t, v in got], desc)
+    # the listed finding (kkt_chol2 on a rank-deficient G) concerns occasional instances - those where the first Cholesky factorisation of the
+    # singular matrix happens to succeed; if the default solver fails on most such instances something else is wrong
+    systematic = False
+    for fam in ('lp', 'qp'):
+        npaths, nfail = stat.get('chol2-cases:paths:' + fam, 0), stat.get('chol2-cases:failed:' + fam, 0)
+        if nfail >= 4 and nfail > 0.5 * npaths: systematic = True; break
+    for what, desc in chol2_fail:
+        ctx.violation('c05:chol2-rank-deficient-G' + (':systematic' if systematic else ''), what + (' [%d of %d default-solver runs on such instances fail]' % (nfail, npaths) if systematic else ''), desc)
     ctx.cov.update({'evaluations': evals, 'distinct_nontrivial': verified,
                     'rule': '%d planted instances (40%% strictly feasible cone LPs, 20%% cone QPs with P of rank 0..2, 20%% strict Farkas certificates, 20%% strictly '
                             'improving rays; random l/q/s mixes with and without equalities), witnesses verified by the Lean rational checker, each run through '
